@@ -2,7 +2,7 @@
 randomly-seeded hash order, addresses or ambient inputs into observable output)."""
 import re
 
-from kern import callers, short_fn, top_fn
+from kern import callers, reviewed, short_fn, top_fn
 
 DESCRIPTION = ("C14 clauses decided: R1 every iteration over a std HashMap/HashSet whose hasher is the randomly seeded "
                "default is in a reviewed, order-insensitive position (maps with the deterministic StarlarkHasherBuilder "
@@ -106,7 +106,7 @@ def r1(ctx, F, rule="C14.R1", only_files=None, table=None):
             ctx.ok(rule, key + ":deterministic-hasher", "the map uses StarlarkHasherBuilder (fixed seed)")
             continue
         n_rand += 1
-        reason = table.get(s)
+        reason = reviewed(F, table, s)
         ctx.check(reason is not None, rule, key, "reviewed: " + (reason or ""),
                   "`%s` iterates a std HashMap/HashSet with the randomly seeded default hasher (`%s`) and is not a "
                   "reviewed order-insensitive site: the iteration order differs between processes and can leak into "
@@ -134,7 +134,7 @@ def r2(ctx, F):
                           "identity used outside observable-output bodies",
                           "`%s` uses a value's address inside an observable-output body" % s, fn=f, line=c.line)
             else:
-                ctx.check(s in allowed, "C14.R2", "addr:%s<-%s" % (pat.split("::")[-1].rstrip("$"), s),
+                ctx.check(bool(reviewed(F, allowed, s)), "C14.R2", "addr:%s<-%s" % (pat.split("::")[-1].rstrip("$"), s),
                           "reviewed address user (identity maps, cycle guards, forwarding, serialization ids)",
                           "`%s` reads a value's address (`%s`) and is not a reviewed user: an address may reach "
                           "observable output (repr, ordering, hash, error text)" % (s, c.name), fn=f, line=c.line)
@@ -148,7 +148,7 @@ def r2(ctx, F):
             continue
         s = short_fn(top_fn(F, f).qpath)
         m += len(casts)
-        ctx.check(s in EXPOSE_OK and not OBSERVABLE_BODY.search(s), "C14.R2", "ptr-to-int:" + s,
+        ctx.check(bool(reviewed(F, EXPOSE_OK, s)) and not OBSERVABLE_BODY.search(s), "C14.R2", "ptr-to-int:" + s,
                   "reviewed pointer-to-integer cast (layout arithmetic, paging, diagnostics, tie-break)",
                   "`%s` casts a pointer to an integer and is not a reviewed site: an address may flow into observable "
                   "output" % s, fn=f, line=casts[0].line)
@@ -166,7 +166,7 @@ def r3(ctx, F):
             n += 1
             s = short_fn(top_fn(F, f).qpath)
             what = "::".join(c.name.split("::")[-2:])
-            ctx.check(s in AMBIENT_OK, "C14.R3", "ambient:%s:%s" % (s, what), "reviewed: " + AMBIENT_OK.get(s, ""),
+            ctx.check(bool(reviewed(F, AMBIENT_OK, s)), "C14.R3", "ambient:%s:%s" % (s, what), "reviewed: " + AMBIENT_OK.get(s, ""),
                       "`%s` reads an ambient input (`%s`): evaluation results may now depend on time, randomness, "
                       "thread or environment" % (s, c.name), fn=f, line=c.line)
     ctx.floor("C14.R3", "ambient input reads", n, 6, inventory=True)
